@@ -294,13 +294,43 @@ fn name_driven_checks(rep: &mut Report) {
 	}
 }
 
+/// Hook-free: fixed sizes at and beyond the 8 / 16 / 31 / 32-bit boundaries, built with from_nodes and parsed from text
+/// (the canonical form writes the size as a JSON integer of whatever width the size has).
+fn size_driven_checks(rep: &mut Report) {
+	let sizes: [usize; 16] = [0, 1, 9, 10, 255, 256, 65_535, 65_536, (1 << 31) - 1, 1 << 31, 3_000_000_000, (1 << 32) - 1, 1 << 32, (1 << 32) + 1, 1_000_000_000_000, (1 << 53) - 1];
+	for size in sizes {
+		let g = vec![GNode::plain(ggen::GKind::Fixed("F".into(), size))];
+		let want_text = pcf(&ggen::unfold(&g));
+		let want = fingerprint_le(want_text.as_bytes());
+		let text = format!("{{\"type\":\"fixed\",\"name\":\"F\",\"size\":{size}}}");
+		for (origin, built) in [("from_nodes", Some(SchemaMut::from_nodes(ggen::to_crate(&g)))), ("parsed", text.parse::<SchemaMut>().ok())] {
+			rep.cover.evaluations += 1;
+			rep.cover.impl_runs += 1;
+			rep.cover.states += 1;
+			rep.cover.transitions += 1;
+			rep.cover.count("size_driven_fingerprints", 1);
+			let Some(m) = built else {
+				// a size the parser refuses is C07's subject, not a fingerprint
+				rep.cover.count("size_driven_parse_refused", 1);
+				continue;
+			};
+			match fingerprints(m) {
+				Out::Ok((a, b, _)) if a == want && b == want => {
+					rep.cover.nontrivial.insert(hash64(&(origin, size)));
+				}
+				other => rep.violation("fingerprint-differs", format!("fixed \"F\" of size {size} ({origin}): fingerprints {other:02x?}, expected {want:02x?} = LE64(CRC-64-AVRO({want_text}))"), json!({"check": "C08", "kind": "graph", "graph": ggen::to_json(&g)})),
+			}
+		}
+	}
+}
+
 pub fn run(rep: &mut Report) {
 	let thorough = rep.thorough();
 	let set = sgen::bases(thorough);
 	let plan = sgen::Plan { escapes: 0, ..sgen::plan(thorough) };
 	let levels: Vec<ggen::GBounds> = c09::levels(thorough).into_iter().filter(|b| b.n <= 3 || (thorough && b.label == "n4-ns2-canonical")).collect();
 	rep.rule = format!(
-		"SAE. Documents: C07's valid ASTs x spellings (tier {}; grammar families: {}; spellings: {}); per document: SchemaMut::canonical_form_rabin_fingerprint = Schema::rabin_fingerprint = LE64(crc64_avro(own canonical text)) [hook H1] and canonical text = vmodel::pcf(AST), fingerprint = LE64(crc64_avro(pcf(AST))) with a bit-serial CRC; the set of fingerprints over all spellings of one AST has one element; forward-reference variants: checksum-of-own-text only. Global: two ASTs with different canonical forms never share a fingerprint (unless the reference CRC collides too). Difference pairs for every valid AST: each single edit that changes the canonical form (wrap any node in an array, int -> long, swap union branches, rename a type, move a type to another namespace, reorder / rename fields, reorder / rename symbols, size + 1) must change the fingerprint, each edit that does not (logical type added to an int or to a named type) must not. Programmatic graphs (C09's levels {}; null-namespace names constructed both as Name::from_fully_qualified_name(\"X\") and as (\".X\") up to 3 nodes, mixed by node parity above); plus the sweep of every primitive kind — bare, with each allowed known logical type, with an unknown one — at every leaf position of one shape, and unions carrying a logical type): the two fingerprints agree with the reference for the unfolded graph. Checksum step via hook H2: initial state, the 73 basis vectors (0, 64 unit states, 8 unit bytes) and all 256 table entries against the bit-serial definition, table GF(2)-linear in the byte, joint additivity on all basis pairs — by linearity of `(s >> 8) ^ T[(s ^ b) & 0xff]` in (s, b) this determines all 2^64 x 256 pairs — plus, not relying on that argument, every (state, byte) with state < 2^16 or state = unit high bit ^ low byte, exhaustively. HIST: every history of <= {} operations from {{b = a.clone(); a.clone_from(&b); b.clone_from(&a); and for a and b: canonical_form_rabin_fingerprint(), serde_json::to_string(), freeze() (consumes the object), 5 edits through nodes_mut() (no change, rename first field, add symbol, fixed size + 1, rename first named type alternately to q.Q and to the null-namespace Q constructed as Name::from_fully_qualified_name(\".Q\"))}} on 6 base schemas (parsed with extra attributes / built with from_nodes; record+enum+fixed+recursion, array on a cycle through a record, enum without symbols, fixed), rebuilt from scratch per history (explicit-state BFS, key = history + all results); invariant after every operation: the fingerprint reported by the object / by the frozen Schema = fingerprint of the reference canonical form of the CURRENT nodes = what a fresh SchemaMut::from_nodes(current nodes) reports. Hook-free: every ASCII character and 6 multi-byte characters driven through a type name. Non-trivial: documents with >= 1 reference or namespace transition (distinct by text), difference pairs (distinct by both texts), graphs with a shared / cyclic named node.",
+		"SAE. Documents: C07's valid ASTs x spellings (tier {}; grammar families: {}; spellings: {}); per document: SchemaMut::canonical_form_rabin_fingerprint = Schema::rabin_fingerprint = LE64(crc64_avro(own canonical text)) [hook H1] and canonical text = vmodel::pcf(AST), fingerprint = LE64(crc64_avro(pcf(AST))) with a bit-serial CRC; the set of fingerprints over all spellings of one AST has one element; forward-reference variants: checksum-of-own-text only. Global: two ASTs with different canonical forms never share a fingerprint (unless the reference CRC collides too). Difference pairs for every valid AST: each single edit that changes the canonical form (wrap any node in an array, int -> long, swap union branches, rename a type, move a type to another namespace, reorder / rename fields, reorder / rename symbols, size + 1) must change the fingerprint, each edit that does not (logical type added to an int or to a named type) must not. Programmatic graphs (C09's levels {}; null-namespace names constructed both as Name::from_fully_qualified_name(\"X\") and as (\".X\") up to 3 nodes, mixed by node parity above); plus the sweep of every primitive kind — bare, with each allowed known logical type, with an unknown one — at every leaf position of one shape, and unions carrying a logical type): the two fingerprints agree with the reference for the unfolded graph. Checksum step via hook H2: initial state, the 73 basis vectors (0, 64 unit states, 8 unit bytes) and all 256 table entries against the bit-serial definition, table GF(2)-linear in the byte, joint additivity on all basis pairs — by linearity of `(s >> 8) ^ T[(s ^ b) & 0xff]` in (s, b) this determines all 2^64 x 256 pairs — plus, not relying on that argument, every (state, byte) with state < 2^16 or state = unit high bit ^ low byte, exhaustively. HIST: every history of <= {} operations from {{b = a.clone(); a.clone_from(&b); b.clone_from(&a); and for a and b: canonical_form_rabin_fingerprint(), serde_json::to_string(), freeze() (consumes the object), 5 edits through nodes_mut() (no change, rename first field, add symbol, fixed size + 1, rename first named type alternately to q.Q and to the null-namespace Q constructed as Name::from_fully_qualified_name(\".Q\"))}} on 6 base schemas (parsed with extra attributes / built with from_nodes; record+enum+fixed+recursion, array on a cycle through a record, enum without symbols, fixed), rebuilt from scratch per history (explicit-state BFS, key = history + all results); invariant after every operation: the fingerprint reported by the object / by the frozen Schema = fingerprint of the reference canonical form of the CURRENT nodes = what a fresh SchemaMut::from_nodes(current nodes) reports. Hook-free: every ASCII character and 6 multi-byte characters driven through a type name; a fixed of 16 sizes at and beyond the 8 / 16 / 31 / 32-bit boundaries (built and parsed). Non-trivial: documents with >= 1 reference or namespace transition (distinct by text), difference pairs (distinct by both texts), graphs with a shared / cyclic named node.",
 		rep.tier,
 		sgen::describe_grammars(thorough),
 		sgen::describe_plan(&plan),
@@ -311,6 +341,7 @@ pub fn run(rep: &mut Report) {
 
 	rabin_step_checks(rep);
 	name_driven_checks(rep);
+	size_driven_checks(rep);
 
 	// HIST: histories on one SchemaMut (and its clone)
 	let (hc, hv) = crate::shist::explore_histories("C08", if thorough { 5 } else { 4 }, crate::shist::Judge::Fingerprint);
